@@ -236,6 +236,29 @@ func c18r3(c *core.Ctx) {
 	}
 	c.Check(okCopy, "vm.VirtualMachine."+reload.Name()+"|copies-all-globals", posOf(p, fd),
 		"reloading the grown main code copies the whole globals slice of the old code object into the new one, unconditionally (a per-slot condition lets freshly bound host globals overwrite values the earlier pieces assigned)")
+	// the functions loaded by earlier pieces share the globals array: the reload re-points them
+	rebinds := false
+	codeT := core.MustType(vmp, "code")
+	gf := fieldByName(codeT, "Globals")
+	ast.Inspect(fd.Body, func(n ast.Node) bool {
+		rs, ok := n.(*ast.RangeStmt)
+		if !ok || fieldOf(info, rs.X) != loaded {
+			return true
+		}
+		ast.Inspect(rs.Body, func(k ast.Node) bool {
+			if as, ok := k.(*ast.AssignStmt); ok {
+				for _, l := range as.Lhs {
+					if gf != nil && fieldOf(info, l) == gf {
+						rebinds = true
+					}
+				}
+			}
+			return true
+		})
+		return true
+	})
+	c.Check(rebinds, "vm.VirtualMachine."+reload.Name()+"|rebinds-loaded-functions", posOf(p, fd),
+		"the reload gives the main code a new globals array; the code objects of functions loaded by earlier pieces (which alias the old array) are re-pointed to it — otherwise a function defined in an earlier piece keeps reading and writing the globals as they were before the reload")
 	// resume point: the run function passes vm.ip (not 0) as start when state is kept
 	var runInternal *ast.FuncDecl
 	funcBodies(vmp, func(fn *types.Func, d *ast.FuncDecl) {
